@@ -13,15 +13,17 @@ def _side_rows(lt) -> List[Dict[str, Any]]:
     rows = []
     for r in sorted(lt.t.traces):
         df = lt.t.get_trace(r)
-        for t in df[["index", "name", "dur", "stream", "iteration"]].itertuples(index=False):
-            rows.append({"rank": int(r), "id": hta.ival(t[0]), "name": st[int(t[1])], "dur": hta.ival(t[2]), "stream": hta.ival(t[3]), "iter": hta.ival(t[4])})
+        for t in df[["index", "name", "dur", "stream", "iteration", "correlation"]].itertuples(index=False):
+            rows.append({"rank": int(r), "id": hta.ival(t[0]), "name": st[int(t[1])], "dur": hta.ival(t[2]), "stream": hta.ival(t[3]), "iter": hta.ival(t[4]),
+                         "corr": hta.ival(t[5])})
     return rows
 
 
 def _mk_set(rng: random.Random, n_ranks: int, steps: int, first: int, variant: int) -> List[Dict[str, Any]]:
     cfg = gen.GenCfg(n_ranks=n_ranks, n_steps=steps, first_step_no=first, p_launch=rng.choice([0.4, 0.7]), p_mem=0.2, p_comm=0.3,
                      p_sync=rng.choice([0, 0.1]), streams=rng.choice([(7,), (7, 9)]), max_children=rng.choice([2, 3]),
-                     ops_per_step=(1, 2 + variant), base=rng.choice([0, 1000]), fmt=rng.choice(["json", "json.gz"]))
+                     ops_per_step=(1, 2 + variant), base=rng.choice([0, 1000]), fmt=rng.choice(["json", "json.gz"]),
+                     p_graph_launch=rng.choice([0.0, 0.0, 0.25]))
     return [r.__dict__ for r in gen.gen_trace_set(rng, cfg)]
 
 
